@@ -1,0 +1,41 @@
+package app
+
+import "sync"
+
+// procTracker counts the process goroutines that Run() waits for. A sync.WaitGroup does not
+// do here: a start request may register a process at the very moment the last one ends and
+// Run() is about to wake up, and a WaitGroup that is added to between its counter reaching
+// zero and its waiter resuming panics ("WaitGroup is reused before previous Wait has
+// returned") - which took the whole supervisor down. Here the waiter simply goes on waiting.
+type procTracker struct {
+	mtx  sync.Mutex
+	cond *sync.Cond
+	n    int
+}
+
+func (t *procTracker) Add(delta int) {
+	t.mtx.Lock()
+	defer t.mtx.Unlock()
+	t.n += delta
+	if t.n < 0 {
+		panic("procTracker: negative counter")
+	}
+	if t.n == 0 && t.cond != nil {
+		t.cond.Broadcast()
+	}
+}
+
+func (t *procTracker) Done() {
+	t.Add(-1)
+}
+
+func (t *procTracker) Wait() {
+	t.mtx.Lock()
+	defer t.mtx.Unlock()
+	if t.cond == nil {
+		t.cond = sync.NewCond(&t.mtx)
+	}
+	for t.n > 0 {
+		t.cond.Wait()
+	}
+}
